@@ -828,6 +828,23 @@ def subscript(interp, base, idx, st, node):
             return (interp.mk_list if base.kind == "list" else interp.mk_tuple)(sub)
     if base.kind == "list" and base.items is None and idx.has_const and idx.const == -1 and isinstance(base.extra, tuple) and base.extra and base.extra[0] == "last":
         return base.extra[1]  # l.append(x); l[-1]
+    if base.kind == "arr" and base.shape is not None and len(base.shape) == 1 and idx.has_const and isinstance(idx.const, int) and not isinstance(idx.const, bool) and idx.const == -1 and isinstance(base.term, Term):
+        bt = base.term
+        if bt.op == "stack" and len(bt.args) >= 3 and all(isinstance(p_, Term) for p_ in bt.args[1:]):
+            # the last entry of a concatenation whose last piece cannot be empty, or of [0] followed by running sums
+            last = interp.vtab.get(bt.args[-1])
+            lsh = shape_of(last) if last is not None else None
+            lead0 = len(bt.args) == 3 and bt.args[1].op == "list" and len(bt.args[1].args) == 1 and bt.args[1].args[0] == const(0)
+            if last is not None and lsh is not None and len(lsh) == 1 and ((lsh[0].is_const() and lsh[0].c >= 1) or (lead0 and isinstance(last.term, Term) and last.term.op == "cumsum")):
+                return subscript(interp, last, idx, st, node)
+        if bt.op == "cumsum" and len(bt.args) == 1:
+            # the last running sum is the total
+            src = interp.vtab.get(bt.args[0])
+            ssh = shape_of(src) if src is not None else None
+            if src is not None and ssh is not None and len(ssh) == 1:
+                from . import api_lib as _L
+
+                return _L.call_external(interp, "numpy.sum", [src], {}, st, node)
     if base.kind == "dict":
         if base.items is not None and idx.has_const:
             if idx.const in base.items:
